@@ -205,7 +205,7 @@ def _classify(o, e):
 
 
 def run_solver(path, solver, timeout, mem_gb=8):
-    """solver 'portfolio' = z3 5.1 and z3 4.8.12 side by side (their strengths differ wildly on the
+    """solver 'portfolio' = z3 5.1, z3 4.8.12 and cvc5 1.0 side by side (their strengths differ wildly on the
     non-linear queries); the first definite answer (sat/unsat) wins, the other process is killed.
     If both answer they must agree, otherwise the result is an error (inconclusive)."""
     if solver != 'portfolio':
@@ -216,7 +216,7 @@ def run_solver(path, solver, timeout, mem_gb=8):
     t0 = time.time()
 
     procs = {}
-    for sv in ('z3', 'z3old'):
+    for sv in ('z3', 'z3old', 'cvc5old'):
         procs[sv] = subprocess.Popen(_wrap(_solver_cmd(path, sv), mem_gb), stdout=subprocess.PIPE, stderr=subprocess.PIPE, text=True,
                                      start_new_session=True, stdin=subprocess.DEVNULL)
     answers = {}
@@ -237,13 +237,13 @@ def run_solver(path, solver, timeout, mem_gb=8):
         p.communicate()
     dt = time.time() - t0
     definite = set(a for a in answers.values() if a in ('sat', 'unsat'))
-    if len(definite) == 2:
+    if len(definite) == 2:   # both 'sat' and 'unsat' were reported
         return 'error: solvers disagree ' + str(answers), dt
     if definite:
         return definite.pop(), dt
     if not answers:
         return 'timeout', dt
-    return list(answers.values())[0] if procs == {} and len(answers) == 2 else 'timeout', dt
+    return list(answers.values())[0] if procs == {} and len(answers) == 3 else 'timeout', dt
 
 
 class Runner:
